@@ -116,6 +116,36 @@ def table(repo, ci, name):
     if not r:
         return None
     owner, node = r
+    if isinstance(node, ast.Call) and isinstance(node.func, ast.Name) and node.func.id == "dict" and len(node.args) == 1 and not node.keywords:
+        # dict(<pairs>) where the pairs are literal tuples / module-level tuples of (name, class) joined by `+`
+        def pairs_of(e, mod, depth=0):
+            if isinstance(e, (ast.Tuple, ast.List)):
+                out_ = []
+                for x in e.elts:
+                    if isinstance(x, (ast.Tuple, ast.List)) and len(x.elts) == 2:
+                        out_.append((x.elts[0], x.elts[1], mod))
+                    else:
+                        return None
+                return out_
+            if isinstance(e, ast.BinOp) and isinstance(e.op, ast.Add):
+                a_, b_ = pairs_of(e.left, mod, depth), pairs_of(e.right, mod, depth)
+                return None if a_ is None or b_ is None else a_ + b_
+            if isinstance(e, ast.Name) and depth < 4:
+                r_ = repo.resolve(mod, e.id)
+                if r_ is not None and r_.kind == "const":
+                    return pairs_of(r_.node, r_.mod, depth + 1)
+            return None
+        prs = pairs_of(node.args[0], owner.mod)
+        if prs is None:
+            return "NOT_DICT"
+        out = {}
+        for k, v, vmod in prs:
+            ks = k.value if isinstance(k, ast.Constant) else None
+            sym = None
+            if isinstance(v, (ast.Name, ast.Attribute)):
+                sym = repo.resolve_expr(vmod, v) if isinstance(v, ast.Attribute) else repo.resolve(vmod, v.id)
+            out[ks if ks is not None else ast.unparse(k)] = (v, repo.class_of_sym(sym))
+        return out
     if not isinstance(node, ast.Dict):
         return "NOT_DICT"
     out = {}
